@@ -614,7 +614,7 @@ def _root_.HickoryVerif.Wire.RData.proved : RData → Bool
   | .a _ | .aaaa _ | .name _ | .mx _ _ | .soa _ _ _ _ _ _ _ | .txt _ | .srv _ _ _ _ | .hinfo _ _ | .null _
   | .unknown _ _
   | .ds _ _ _ _ | .dnskey _ _ _ _ | .tlsa _ _ _ _ | .sshfp _ _ _ | .openpgpkey _ | .cert _ _ _ _
-  | .nsec3param _ _ _ | .caa _ _ _ _ => true
+  | .nsec3param _ _ _ | .caa _ _ _ _ | .key _ _ _ _ | .naptr _ _ _ _ _ _ | .sig _ _ _ _ _ _ _ _ _ => true
   | _ => false
 
 /-- wire form of the name-free "blob" variants (stage 3): fixed fields, then the rest as it is -/
@@ -627,6 +627,7 @@ def blobWire : RData → Bytes
   | .cert ct tag alg d => u16b ct ++ (u16b tag ++ ([alg] ++ d))
   | .nsec3param oo iter salt => [1, (if oo then 1 else 0)] ++ (u16b iter ++ ([salt.length] ++ salt))
   | .caa cr rs tag v => [rs + (if cr then 128 else 0), tag.length] ++ (tag ++ v)
+  | .key flags proto alg k => u16b flags ++ ([proto, alg] ++ k)
   | _ => []
 
 /-- the layout `RData::emit` leaves for the covered variants -/
@@ -654,6 +655,16 @@ def layRData : RData → Lay
   | .cert ct tag alg d => laySeg (blobWire (.cert ct tag alg d))
   | .nsec3param oo iter salt => laySeg (blobWire (.nsec3param oo iter salt))
   | .caa cr rs tag v => laySeg (blobWire (.caa cr rs tag v))
+  | .key flags proto alg k => laySeg (blobWire (.key flags proto alg k))
+  | .naptr order pref flags services regexp n =>
+    laySeq (laySeg (u16b order)) (laySeq (laySeg (u16b pref)) (laySeq (laySeg (flags.length :: flags))
+      (laySeq (laySeg (services.length :: services)) (laySeq (laySeg (regexp.length :: regexp))
+        (laySeq (layName n.labels) layEmpty)))))
+  | .sig covered alg labels ottl exp inc tag signer sg =>
+    laySeq (laySeq (laySeg (u16b covered)) (laySeq (laySeg [alg]) (laySeq (laySeg [labels])
+      (laySeq (laySeg (u32b ottl)) (laySeq (laySeg (u32b exp)) (laySeq (laySeg (u32b inc))
+        (laySeq (laySeg (u16b tag)) (laySeq (layName signer.labels) layEmpty))))))))
+      (laySeq (laySeg sg) layEmpty)
   | _ => fun _ _ _ _ => False
 
 /-- the names inside the covered RDATA variants are well-formed names -/
@@ -671,6 +682,9 @@ def _root_.HickoryVerif.Wire.RData.namesWF : RData → Prop
   | .cert _ _ alg _ => alg < 256
   | .nsec3param _ _ salt => salt.length < 256
   | .caa _ rs tag _ => rs < 128 ∧ tag.length < 256
+  | .key _ proto alg _ => proto < 256 ∧ alg < 256
+  | .naptr _ _ _ _ _ n => n.WF
+  | .sig _ alg labels _ _ _ _ signer _ => signer.WF ∧ alg < 256 ∧ labels < 256
   | _ => True
 
 theorem isLayout_rdata (d : RData) (hp : d.proved = true) : IsLayout (layRData d) := by
@@ -691,6 +705,14 @@ theorem isLayout_rdata (d : RData) (hp : d.proved = true) : IsLayout (layRData d
   case hinfo => exact isLayout_seg _
   case null => exact isLayout_seg _
   case unknown => exact isLayout_seg _
+  case naptr =>
+    exact isLayout_seq (isLayout_seg _) (isLayout_seq (isLayout_seg _) (isLayout_seq (isLayout_seg _)
+      (isLayout_seq (isLayout_seg _) (isLayout_seq (isLayout_seg _) (isLayout_seq (isLayout_name _) isLayout_empty)))))
+  case sig =>
+    exact isLayout_seq (isLayout_seq (isLayout_seg _) (isLayout_seq (isLayout_seg _) (isLayout_seq (isLayout_seg _)
+      (isLayout_seq (isLayout_seg _) (isLayout_seq (isLayout_seg _) (isLayout_seq (isLayout_seg _)
+        (isLayout_seq (isLayout_seg _) (isLayout_seq (isLayout_name _) isLayout_empty))))))))
+      (isLayout_seq (isLayout_seg _) isLayout_empty)
   all_goals exact isLayout_seg _
 
 theorem emits_emitRData (t : Nat) (d : RData) (hp : d.proved = true) (hwf : d.namesWF) :
@@ -759,6 +781,28 @@ theorem emits_emitRData (t : Nat) (d : RData) (hp : d.proved = true) (hwf : d.na
       (emits_seg_seq (emits_emitSlice salt) emits_nothing_seg))))
     have hmod : salt.length % 256 = salt.length := Nat.mod_eq_of_lt hwf
     simpa [seqAll, blobWire, u16b, hmod] using this
+  case key flags proto alg k =>
+    have h1 := emits_emitU8 proto; have h2 := emits_emitU8 alg
+    rw [Nat.mod_eq_of_lt hwf.1] at h1; rw [Nat.mod_eq_of_lt hwf.2] at h2
+    have := emits_seg_seq (emits_emitU16 flags) (emits_seg_seq h1 (emits_seg_seq h2
+      (emits_seg_seq (emits_emitSlice k) emits_nothing_seg)))
+    simpa [seqAll, blobWire, u16b] using this
+  case naptr order pref flags services regexp n =>
+    refine emits_withRdataBehavior ?_ _
+    exact emits_seq (isLayout_seg _) (emits_emitU16 order) (emits_seqAll5 (isLayout_seg _) (isLayout_seg _)
+      (isLayout_seg _) (isLayout_seg _) (isLayout_name _) (emits_emitU16 pref) (emits_emitCharacterData flags)
+      (emits_emitCharacterData services) (emits_emitCharacterData regexp) (emits_emitName n hwf))
+  case sig covered alg labels ottl exp inc tag signer sg =>
+    have h1 := emits_emitU8 alg; have h2 := emits_emitU8 labels
+    rw [Nat.mod_eq_of_lt hwf.2.1] at h1; rw [Nat.mod_eq_of_lt hwf.2.2] at h2
+    have hin := emits_seq (isLayout_seg _) (emits_emitU16 covered) (emits_seqAll7 (isLayout_seg _) (isLayout_seg _)
+      (isLayout_seg _) (isLayout_seg _) (isLayout_seg _) (isLayout_seg _) (isLayout_name _) h1 h2
+      (emits_emitU32 ottl) (emits_emitU32 exp) (emits_emitU32 inc) (emits_emitU16 tag) (emits_emitName signer hwf.1))
+    refine emits_withRdataBehavior ?_ _
+    exact emits_seqAll2 (isLayout_seq (isLayout_seg _) (isLayout_seq (isLayout_seg _) (isLayout_seq (isLayout_seg _)
+      (isLayout_seq (isLayout_seg _) (isLayout_seq (isLayout_seg _) (isLayout_seq (isLayout_seg _)
+        (isLayout_seq (isLayout_seg _) (isLayout_seq (isLayout_name _) isLayout_empty))))))))
+      (isLayout_seg _) (emits_withRdataBehavior hin _) (emits_emitSlice sg)
   case caa cr rs tag v =>
     have h1 := emits_emitU8 (rs % 128 + (if cr then 128 else 0))
     have e1 : (rs % 128 + (if cr then 128 else 0)) % 256 = rs + (if cr then 128 else 0) := by
@@ -928,6 +972,13 @@ def _root_.HickoryVerif.Wire.RData.typeOK (t : Nat) : RData → Prop
   | .cert ct tag _ d => t = 37 ∧ ct < 65536 ∧ tag < 65536 ∧ d ≠ []
   | .nsec3param _ iter _ => t = 51 ∧ iter < 65536
   | .caa _ _ tag _ => t = 257 ∧ 1 ≤ tag.length ∧ tag.length ≤ 15 ∧ tag.all isAlnum = true
+  -- KEY: the flags word `KEY::read_data` accepts (reserved bits clear, no extended flags)
+  | .key flags _ _ _ => t = 25 ∧ flags < 65536 ∧ (flags / 8192) % 2 = 0 ∧ (flags / 1024) % 4 = 0 ∧
+      (flags / 16) % 16 = 0 ∧ (flags / 4096) % 2 = 0
+  | .naptr order pref flags services regexp _ => t = 35 ∧ order < 65536 ∧ pref < 65536 ∧
+      flags.length ≤ 255 ∧ services.length ≤ 255 ∧ regexp.length ≤ 255 ∧ flags.all isAlnum = true
+  | .sig covered _ _ ottl exp inc tag _ _ => (t = 46 ∨ t = 24) ∧ covered < 65536 ∧ ottl < 4294967296 ∧
+      exp < 4294967296 ∧ inc < 4294967296 ∧ tag < 65536
   | _ => False
 
 /-- the value with every embedded name made fully qualified (what `Name::read` returns) -/
@@ -936,6 +987,8 @@ def _root_.HickoryVerif.Wire.RData.fq : RData → RData
   | .mx p n => .mx p { n with fqdn := true }
   | .srv p w port n => .srv p w port { n with fqdn := true }
   | .soa m r a b c d e => .soa { m with fqdn := true } { r with fqdn := true } a b c d e
+  | .naptr o p f s r n => .naptr o p f s r { n with fqdn := true }
+  | .sig c a l o e i t signer sg => .sig c a l o e i t { signer with fqdn := true } sg
   | d => d
 
 theorem drop_of_segAt_end {buf d : Bytes} {p : Nat} (h : SegAt buf p d) (he : p + d.length = buf.length) :
@@ -1279,6 +1332,90 @@ theorem reads_rdataBody {H : Nat × Nat → Prop} {opq : Nat → Rd Bytes} {t : 
       cases oo <;> simp
     refine Reads.bind hhead ?_
     exact Reads.pure _ _ _
+  case key flags proto alg k =>
+    obtain ⟨rfl, hfl, hk1, hk2, hk3, hk4⟩ := hty
+    obtain ⟨hseg, hq⟩ := hl
+    simp only [blobWire, List.length_append, List.length_cons, List.length_nil, u16b] at hq
+    have s1 := segAt_u16_tail hseg
+    have s2 := segAt_cons_tail s1
+    have s3 : SegAt buf (p + 2 + 1 + 1) k := segAt_cons_tail s2
+    have hbody : readRDataBody opq 25 = readDnssec 25 := rfl
+    rw [hbody]
+    simp only [readDnssec, Nat.reduceEqDiff, ↓reduceIte, or_self]
+    refine Reads.bind (reads_u16_seg hseg hfl) ?_
+    rw [if_neg (by omega), if_neg (by omega), if_neg (by omega), if_neg (by omega)]
+    refine Reads.bind (Reads.pop (segAt_cons_get s1)) ?_
+    refine Reads.bind (Reads.pop (segAt_cons_get s2)) ?_
+    refine Reads.bind (reads_toEnd_seg s3 (by omega)) ?_
+    exact Reads.pure _ _ _
+  case naptr order pref flags services regexp n =>
+    obtain ⟨rfl, ho, hpf, hf, hs, hr, hal⟩ := hty
+    obtain ⟨m1, l1, m2, l2, m3, l3, m4, l4, m5, l5, m6, l6, l7⟩ := hl
+    obtain ⟨rfl, _⟩ := l7
+    obtain ⟨g3, rfl⟩ := l3
+    obtain ⟨g4, rfl⟩ := l4
+    obtain ⟨g5, rfl⟩ := l5
+    have hbody : readRDataBody opq 35 = (do
+        let order ← Rd.readU16
+        let pref ← Rd.readU16
+        let flags ← Rd.readCharacterData
+        if !flags.all isAlnum then Rd.fail
+        else
+          let services ← Rd.readCharacterData
+          let regexp ← Rd.readCharacterData
+          let n ← Rd.name
+          pure (.naptr order pref flags services regexp n)) := rfl
+    rw [hbody]
+    refine Reads.bind (reads_u16_of_seg l1 ho) ?_
+    refine Reads.bind (reads_u16_of_seg l2 hpf) ?_
+    refine Reads.bind (reads_charData g3) ?_
+    rw [if_neg (by simp [hal])]
+    have e3 : m2 + (flags.length :: flags).length = m2 + 1 + flags.length := by simp; omega
+    rw [e3] at g4 l6 g5
+    refine Reads.bind (reads_charData g4) ?_
+    have e4 : m2 + 1 + flags.length + (services.length :: services).length =
+        m2 + 1 + flags.length + 1 + services.length := by simp; omega
+    rw [e4] at g5 l6
+    refine Reads.bind (reads_charData g5) ?_
+    have e5 : m2 + 1 + flags.length + 1 + services.length + (regexp.length :: regexp).length =
+        m2 + 1 + flags.length + 1 + services.length + 1 + regexp.length := by simp; omega
+    rw [e5] at l6
+    refine Reads.bind (reads_name_of_lay l6 hwf) ?_
+    exact Reads.pure _ _ _
+  case sig covered alg labels ottl exp inc tag signer sg =>
+    obtain ⟨ht, hc, ho, he, hi, htg⟩ := hty
+    obtain ⟨mA, lA, lB⟩ := hl
+    obtain ⟨m1, l1, m2, l2, m3, l3, m4, l4, m5, l5, m6, l6, m7, l7, m8, l8, l9⟩ := lA
+    obtain ⟨rfl, _⟩ := l9
+    obtain ⟨mB, lsg, lend⟩ := lB
+    obtain ⟨rfl, _⟩ := lend
+    obtain ⟨g2, rfl⟩ := l2
+    obtain ⟨g3, rfl⟩ := l3
+    obtain ⟨gsg, hq⟩ := lsg
+    have hbody : readRDataBody opq t = (do
+        let covered ← Rd.readU16
+        let alg ← Rd.pop
+        let labels ← Rd.pop
+        let ottl ← Rd.readU32
+        let exp ← Rd.readU32
+        let inc ← Rd.readU32
+        let tag ← Rd.readU16
+        let signer ← Rd.name
+        let sg ← Rd.readVecToEnd
+        pure (.sig covered alg labels ottl exp inc tag signer sg)) := by
+      rcases ht with rfl | rfl <;> rfl
+    rw [hbody]
+    refine Reads.bind (reads_u16_of_seg l1 hc) ?_
+    refine Reads.bind (Reads.pop (segAt_cons_get g2)) ?_
+    refine Reads.bind (Reads.pop (segAt_cons_get g3)) ?_
+    simp only [List.length_cons, List.length_nil, Nat.zero_add] at l4
+    refine Reads.bind (reads_u32_of_seg l4 ho) ?_
+    refine Reads.bind (reads_u32_of_seg l5 he) ?_
+    refine Reads.bind (reads_u32_of_seg l6 hi) ?_
+    refine Reads.bind (reads_u16_of_seg l7 htg) ?_
+    refine Reads.bind (reads_name_of_lay l8 hwf.1) ?_
+    refine Reads.bind (reads_toEnd_seg gsg hq.symm) ?_
+    exact Reads.pure _ _ _
   case caa cr rs tag v =>
     obtain ⟨rfl, ht1, ht15, hal⟩ := hty
     obtain ⟨hseg, hq⟩ := hl
@@ -1371,6 +1508,21 @@ theorem layRData_pos {H : Nat × Nat → Prop} {b : Bytes} {p q : Nat} (d : RDat
     obtain ⟨_, rfl⟩ := hl
     have : dd.length ≠ 0 := fun h => hne (List.eq_nil_of_length_eq_zero h)
     simp only [blobWire]; omega
+  case naptr order pref flags services regexp n =>
+    obtain ⟨m1, l1, rest⟩ := hl
+    obtain ⟨_, rfl⟩ := l1
+    have := (isLayout_seq (isLayout_seg _) (isLayout_seq (isLayout_seg _) (isLayout_seq (isLayout_seg _)
+      (isLayout_seq (isLayout_seg _) (isLayout_seq (isLayout_name _) isLayout_empty))))).bounds rest
+    simp [u16b] at *; omega
+  case sig covered alg labels ottl exp inc tag signer sg =>
+    obtain ⟨mA, lA, lB⟩ := hl
+    obtain ⟨m1, l1, rest⟩ := lA
+    obtain ⟨_, rfl⟩ := l1
+    have b1 := (isLayout_seq (isLayout_seg _) (isLayout_seq (isLayout_seg _)
+      (isLayout_seq (isLayout_seg _) (isLayout_seq (isLayout_seg _) (isLayout_seq (isLayout_seg _)
+        (isLayout_seq (isLayout_seg _) (isLayout_seq (isLayout_name _) isLayout_empty))))))).bounds rest
+    have b2 := (isLayout_seq (isLayout_seg _) isLayout_empty).bounds lB
+    simp [u16b] at *; omega
   all_goals
     obtain ⟨_, rfl⟩ := hl
     simp [blobWire, u16b]
